@@ -27,7 +27,7 @@ class Profile:
     wall_thorough = 1500.0
     components = {
         "real": ["gtirb (built from /repo working tree)", "protobuf runtime (upb and pure-Python backends)", "intervaltree", "sortedcontainers", "networkx"],
-        "stub": ["uuid4 (seeded)", "SetWrapper iteration order (seeded permutation)", "open()/file streams (SimDisk)"],
+        "stub": ["uuid4 (seeded)", "SetWrapper iteration order (seeded permutation)", "Node.__hash__ (by UUID instead of by address)", "byte streams (SimDisk; the path API writes real files under the build directory)"],
     }
 
     def config(self, r):
